@@ -338,7 +338,7 @@ for line in props_pickle.describe(V, L, W):    # a second time: the copy stays u
 
 class C10(Check):
     id = "C10"
-    modules = ["EG.Props.C10", "EG.Props.C10Load"]
+    modules = ["EG.Props.C10", "EG.Props.C10Load", "EG.Props.C10Sim"]
     assumptions = [
         "PARTIAL: the theorem is about the scheduling (queue machine = recursive pickler, for every heap and depth, in a flat loop); "
         "that CPython's unpickler applied to the recursive pickler's stream yields an isomorphic copy is pickle's / dill's and is trusted; "
